@@ -31,5 +31,5 @@ def obligations(repo):
         obs[0]["gi_flags"] = os.environ["GI"].split()
     if os.environ.get("OB"):
         obs[0]["object_bits"] = int(os.environ["OB"])
-    o2 = copy.deepcopy(obs[0]); o2["id"] = "C09.lex.dbg"; o2["defines"] = {"LEX_DEBUG_NOCOVER": 1, "LEX_CTAB_CONCRETE": 1}; obs.append(o2)
+    o2 = copy.deepcopy(obs[0]); o2["id"] = "C09.lex.dbg"; o2["defines"] = {"LEX_DEBUG_NOCOVER": 1}; obs.append(o2)
     return obs
